@@ -355,10 +355,11 @@ func (l *Lab) Runnable(name string) bool {
 
 // Outcome of one request.
 type Outcome struct {
-	Resp proto.Resp
-	Hang bool   // watchdog fired (reported as inconclusive, never as a violation)
-	Died string // the worker died while serving this request (stderr tail)
-	Race string // race detector report seen on the worker's stderr while serving the request
+	Resp    proto.Resp
+	Hang    bool   // watchdog fired (reported as inconclusive, never as a violation)
+	Died    string // the worker died while serving this request (stderr tail)
+	BadResp string // the response could not be decoded: a harness problem, never a violation
+	Race    string // race detector report seen on the worker's stderr while serving the request
 }
 
 type worker struct {
@@ -496,7 +497,7 @@ func (l *Lab) Run(reqs []proto.Req, workers int, timeout time.Duration) []Outcom
 						continue
 					}
 					if err := json.Unmarshal(r.line, &outs[i].Resp); err != nil {
-						outs[i].Died = "bad response: " + err.Error()
+						outs[i].BadResp = err.Error()
 					}
 					if reqs[i].Cold {
 						// give the race runtime a moment to flush its report, then retire the process
